@@ -2,7 +2,6 @@ package tparsetime
 
 import (
 	"fmt"
-	"strconv"
 	"strings"
 	"time"
 )
@@ -24,23 +23,13 @@ func parseRFC3339Timestamp(timeStr string, timezoneCache map[string]*time.Locati
 	hour := atoi2(t[11:13])
 	min := atoi2(t[14:16])
 	sec := atoi2(t[17:19])
-	var frac float64
+	var nsec int
 	fracStr, tzStr := splitFractionAndTimezone(t[19:])
-	switch len(fracStr) - 1 {
-	case -1:
-		frac = 0.0
-	case 3:
-		frac = atof3(fracStr)
-	case 6:
-		frac = atof6(fracStr)
-	case 9:
-		frac = atof9(fracStr)
-	default:
-		f, err := strconv.ParseFloat(fracStr, 64)
-		if err != nil {
-			return time.Now(), fmt.Errorf("invalid fraction '%s': %w", fracStr, err)
+	if len(fracStr) > 0 {
+		if len(fracStr) == 1 {
+			return time.Now(), fmt.Errorf("invalid fraction '%s'", fracStr)
 		}
-		frac = f
+		nsec = atoiFraction(fracStr[1:])
 	}
 	var location *time.Location
 	if len(tzStr) > 0 {
@@ -64,7 +53,7 @@ func parseRFC3339Timestamp(timeStr string, timezoneCache map[string]*time.Locati
 	} else {
 		location = time.Local
 	}
-	return time.Date(year, time.Month(month), date, hour, min, sec, int(frac*1000000000.0), location), nil
+	return time.Date(year, time.Month(month), date, hour, min, sec, nsec, location), nil
 }
 
 // splitFractionAndTimezone splits e.g. ".123+07:00" to .123 and +07:00
